@@ -399,7 +399,7 @@ var checkLogTicks = ev.Register("log-ticks", func(c *LogCase) ev.Outcome {
 		// with explicit limits entirely among sane levels, failure must be reported
 		allSane := true
 		for l := c.MinLevel; l <= c.MaxLevel; l++ {
-			if !sane(l) {
+			if l >= 0 && !sane(l) { // levels below 0 never fit (their count is "infinite")
 				allSane = false
 			}
 		}
@@ -536,8 +536,10 @@ func drawOptions(t *rapid.T, log bool) (omax, minL, maxL int) {
 	omax = rapid.SampledFrom([]int{5, 3, 1, 2, 4, 6, 8, 10, 15, 20}).Draw(t, "omax")
 	if rapid.IntRange(0, 3).Draw(t, "limits") == 0 {
 		if log {
-			minL = rapid.IntRange(0, 3).Draw(t, "minlevel")
-			maxL = minL + rapid.IntRange(0, 4).Draw(t, "levelspan")
+			// negative levels are legal limits for a Log scale too (its counts below
+			// level 0 are "infinite"); {-k,0} must not be mistaken for the unset {0,0}
+			minL = rapid.IntRange(-3, 3).Draw(t, "minlevel")
+			maxL = minL + rapid.IntRange(0, 5).Draw(t, "levelspan")
 		} else {
 			minL = rapid.IntRange(-10, 9).Draw(t, "minlevel")
 			maxL = minL + rapid.IntRange(0, 9).Draw(t, "levelspan")
